@@ -4,7 +4,7 @@ points; every operation specified by the point set it must denote).  Binding A: 
 simulates the inputs and prints, per case, the point sets the specification demands; harness/cmd/c46
 builds the real ranges with the real constructors, calls the real operation and judges the real
 result by membership of every key tuple (real cut comparison), sortedness and disjointness."""
-import json, os, random, resource, shutil, subprocess, time
+import json, os, random, re, resource, shutil, subprocess, time
 from concurrent.futures import ThreadPoolExecutor
 import lib
 
@@ -82,6 +82,9 @@ def tlc_replay(binp, sc, name, cfg, harness_args, workers=4, timeout=900, simula
     r = lib.TLCResult(log, tl.returncode, time.time() - t0)
     if tl.returncode == 124:
         r.error = "TLC timed out after %ss" % timeout
+    if simulate:
+        m = re.search(r"The number of states generated: (\d+)", log)
+        r.generated = int(m.group(1)) if m else 0
     if not rep["extra"].get("hung"):
         if simulate:
             if r.error or "Finished in" not in log:
@@ -98,7 +101,7 @@ def confirm(binp, sc, mm, n):
     signature shows again."""
     p = os.path.join(sc, "confirm-%d.ndjson" % n)
     inp = mm["input"]
-    args = [binp, "-file", p, "-workers", "1", "-seed", "7"]
+    args = [binp, "-file", p, "-workers", "1", "-seed", str(lib.seed())]
     if isinstance(inp, dict) and inp.get("behaviour"):
         lib.write_ndjson(p, inp["behaviour"])
         args += ["-tree", "path"]
@@ -158,7 +161,7 @@ def check(tier):
             if o.get("dedupe"):
                 hargs += ["-dedupe"]
             big = tier == "thorough" and kind == "bfs"
-            kw = dict(workers=(min(lib.NCPU, 12) if big else (1 if kind == "sim" else 3)),
+            kw = dict(workers=(min(lib.NCPU, 12, int(os.environ.get("VERIF_TLC_WORKERS", "64"))) if big else (1 if kind == "sim" else 3)),
                       gworkers=(8 if big else 3), timeout=o.get("timeout", 600))
             if kind == "sim":
                 kw.update(simulate="num=%d" % o["num"], depth=o["depth"], tlc_seed=seed)
@@ -241,16 +244,27 @@ def check(tier):
                              "tlc_distinct_states": r.distinct, "tlc_generated": r.generated, "cases_replayed": rep["cases"],
                              "nontrivial": rep["nontrivial"], "distinct_inputs": rep["extra"].get("distinct_inputs"),
                              "tlc_wall_s": round(r.wall, 1)}
+        # distinct non-trivial cases: the bfs runs enumerate pairwise different spaces (K, NV, mode differ),
+        # each list once; a -simulate run is counted (its own distinct inputs only) when no bfs run
+        # shares its K, NV and mode, so that no case is counted twice
+        def consts(cfg):
+            t = open(os.path.join(lib.SPEC, cfg)).read()
+            return (re.search(r"K = (\d)", t).group(1), re.search(r"NV = (\d)", t).group(1), "tree" in cfg)
+        bfs_spaces = {consts(cfg) for name, cfg, kind, o, floor in runs if kind == "bfs"}
+        dn = 0
+        for name, cfg, kind, o, floor in runs:
+            if kind == "bfs" or consts(cfg) not in bfs_spaces:
+                dn += results[name][1]["nontrivial"]
         exhaustive = all(not results[n_][1]["extra"].get("hung") for n_, *_ in runs)
         lib.write_evidence("C46", tier, "model_checking", {
-            "states": sum(results[name][0].distinct for name, *_ in runs),
+            "states": sum((results[name][0].distinct or results[name][0].generated) for name, *_ in runs),
             "transitions": sum(rep["cases"] for rep in reps),
             "traces_validated_against_impl": sum(rep["cases"] for rep in reps) + wrep["cases"],
             "samples": samples[:4] or [wrep["mismatches"][0]["input"]],
             "exhaustive": exhaustive,
             "evaluations": sum(by_op.values()),
-            "distinct_nontrivial": sum(rep["nontrivial"] for rep in reps),
-            "rule": "each TLC case is one list of ranges (or one step of a range-tree behaviour) and is replayed once with every applicable operation; 'evaluations' counts operation calls judged. The bfs runs enumerate their bounded space completely (every list occurs once); the -simulate runs are seeded samples (distinct inputs counted by the replayer). Non-trivial = two input ranges overlap or touch in every column (tree: the inserted/removed range touches a stored one; a sweep over >= 2 stored ranges).",
+            "distinct_nontrivial": dn,
+            "rule": "each TLC case is one list of ranges (or one step of a range-tree behaviour) and is replayed once with every applicable operation; 'evaluations' counts operation calls judged. The bfs runs enumerate their bounded space completely (every list occurs once); the -simulate runs are seeded samples (distinct inputs counted by the replayer; states = states generated). distinct_nontrivial sums the bfs runs (pairwise different K / NV / mode, every list once) and those -simulate runs whose K, NV and mode no bfs run shares. Non-trivial = two input ranges overlap or touch in every column (tree: the inserted/removed range touches a stored one; a sweep over >= 2 stored ranges).",
             "runs": per_run,
             "operation_calls_judged": by_op,
             "tryunion_ok_fail": [sum(rep["extra"]["tryunion_ok_fail"][i] for rep in reps) for i in (0, 1)],
